@@ -265,7 +265,7 @@ def run_checked(ctx, op, prec, call, inputs, point_oracles, extra_checks=None, v
     inputs: list of (lo, hi) raw pairs (for ident / classes); point_oracles: list of (kind, sample, enclose(wp));
     extra_checks(res_parts) -> list of (kind, sample, enclose)"""
     rec, iv, r = ctx.rec, ctx.iv, ctx.r
-    opclasses = ':'.join(O.sign_class(lo, hi).replace('inf', '') or 'R' for lo, hi in inputs)
+    opclasses = ':'.join(O.sign_class(lo, hi).replace('inf', '') or 'R' for lo, hi in inputs) if inputs else (variant.split(':')[0] or 'any')
     cls = '%s/%s' % (op, ':'.join(O.sign_class(lo, hi) for lo, hi in inputs)) if inputs else '%s/%s' % (op, variant)
     if variant:
         rec.cls('variant/%s/%s' % (op, variant))
